@@ -67,18 +67,26 @@ fn documented_refusal(s: &Spec) -> bool {
 impl Main {
     fn new(tier: Tier) -> Main {
         let (dmin, dfull) = tier.pick((2, 2), (3, 3));
-        // quick: the 256-populated-chunk value only as a single deviation
         let quick = tier == Tier::Quick;
         let mut cases = vec![];
         let mut seen: HashSet<Spec> = HashSet::new();
         for ndev in 0..=dmin.max(dfull) {
-            for (bname, dmax) in [("minimal", dmin), ("full", dfull)] {
-                if ndev > dmax {
+            for (bname, dmax) in [("minimal", dmin), ("full", dfull), ("full_staggered", if quick { 0 } else { dfull })] {
+                if ndev > dmax || (quick && bname == "full_staggered") {
                     continue;
                 }
                 for version in 0..VERSIONS.len() {
-                    let base = if bname == "minimal" { Spec::minimal(version) } else { Spec::full(version) };
-                    let skip = |site: usize, v: u8| quick && ndev >= 2 && site == S_MCNK && SITES[site].vals[v as usize] == "all256";
+                    let base = match bname {
+                        "minimal" => Spec::minimal(version),
+                        "full" => Spec::full(version),
+                        _ => {
+                            let mut b = Spec::full(version);
+                            b.v[S_STAGGER] = 1;
+                            b
+                        }
+                    };
+                    let heavy_from = if quick && bname == "full" { 2 } else { 3 };
+                    let skip = |site: usize, v: u8| (quick || bname == "full_staggered") && ndev >= heavy_from && site == S_MCNK && SITES[site].vals[v as usize] == "all256";
                     for (devs, spec) in deviations(&base, ndev, &skip) {
                         let canon = spec.canonical();
                         // from 3 deviations on, inputs the builder is documented to refuse are not
@@ -510,7 +518,7 @@ fn main() {
         "builder inputs = all specs with <= {dmin} deviations from the minimal baseline and <= {dfull} from the version-adjusted full baseline over {} sites ({} site values in total) x 6 target versions (VanillaEarly..MoP), canonicalised (sites without effect reset) and de-duplicated{}; per case: build -> to_bytes -> independent walker -> parse_adt -> content comparison with the input, then {ROUNDS} rounds of parse -> rebuild -> to_bytes on two rebuild paths (BuiltAdt::from_root_adt(root, None) and AdtBuilder::from_parsed(root).build()), every produced file walked. A case is non-trivial when the builder accepted it and a file was produced; distinct by (version, site vector).",
         NSITES,
         SITES.iter().map(|s| s.vals.len()).sum::<usize>(),
-        if tier == Tier::Quick { "; 256 populated MCNK only as a single deviation" } else { "; with 3 deviations inputs that the builder documents as refused are not enumerated again" }
+        if tier == Tier::Quick { "; 256 populated MCNK within <= 2 deviations of the minimal and <= 1 of the full baseline" } else { "; thorough adds a third baseline (full with staggered sub-chunk presence: sub-chunk k present on chunk i iff (i+k) even) with the same deviation bound as full, 256 populated MCNK there only within <= 2 deviations; with 3 deviations, inputs that the builder documents as refused are not enumerated again" }
     );
     c.assume("content equality is judged on a canonical byte rendering of every section (floats by bit pattern); derived fields are excluded: MCNK header offsets/sizes/n_layers/n_snd_emitters, MCNR trailing padding, MH2O header/instance offsets and layer_count, MHDR/MCIN/MMID/MWID (checked by the walker instead); an empty section equals an absent one");
     c.assume("detected version is not content: version detection from chunk presence may legitimately report an older version when no newer chunk is present (counted, not judged); content lost because of it is judged");
@@ -523,7 +531,7 @@ fn main() {
         axes.insert(s.name.into(), json!(s.vals.len()));
     }
     axes.insert("versions".into(), json!(VERSIONS.len()));
-    axes.insert("baselines".into(), json!(2));
+    axes.insert("baselines".into(), json!(tier.pick(2, 3)));
     axes.insert("rounds".into(), json!(ROUNDS));
     axes.insert("rebuild_paths".into(), json!(2));
     c.extra_cov.insert("axes".into(), Value::Object(axes));
